@@ -23,6 +23,7 @@ import XzVerif.Lemmas.C03Examples
 import XzVerif.Lemmas.C03Coder
 import XzVerif.Lemmas.C03Fuel
 import XzVerif.Lemmas.C03Reps
+import XzVerif.Lemmas.C03RepsStream
 
 namespace XzVerif.C03
 open XzVerif.RangeDec XzVerif.LzDict XzVerif.Lzma XzVerif.Lzma2
@@ -423,7 +424,8 @@ theorem decode_result_bounds (ch : Chain) (input : List UInt8) (outCap : Nat) :
 /-- `RepsOk` holds after `lzma_decoder_reset`; one symbol decode that returns normally keeps it, does not touch the dictionary,
     and when its output step is a short rep or a copy then `rep0 < dict.full`; the matched-literal read `dict_get(rep0)`
     (state not a literal state) has `rep0 < dict.full`; the output step keeps it while the dictionary positions are well
-    formed. With `dict_indices_in_bounds` every dictionary index computed between two resets of the dictionary is in bounds. -/
+    formed. With `dict_indices_in_bounds` every dictionary index computed between two resets of the dictionary is in bounds
+    (across resets, for whole LZMA2 streams: `reps_invariant_lzma2` below). -/
 theorem reps_invariant :
     (∀ (s : St) (p : Props), RepsOk (s.resetLzma p))
     ∧ (∀ (ev : Bool) (s : St) (act : Pending) (s' : St), RepsOk s → decodeSymbol ev s = .ok act s' →
@@ -433,14 +435,55 @@ theorem reps_invariant :
   ⟨repsOk_reset, fun ev s act s' h he => decodeSymbol_repsOk ev s act s' h he, matched_literal_read_valid,
    fun p s s' h hp he => doWrite_repsOk p s s' h hp he⟩
 
-/-- What is still open: the invariant along a whole LZMA2 stream. A dictionary reset empties the dictionary while the old
-    `state`/`rep` values are still in place; they are only reset at SEQ_PROPERTIES, which the control-byte rules
-    (`lzma2_control_exact`: after a dictionary reset the next LZMA chunk must carry properties) force to happen before the
-    next symbol is decoded. Stated for every state reachable from a fresh LZMA2 coder at the moment a symbol decode starts. -/
-def reps_invariant_lzma2_statement : Prop :=
-  ∀ (dictSize : Nat) (preset : List UInt8) (input : ByteArray) (calls : List Nat),
+/-- ONE CALL of `lzma_decode` in the configuration LZMA2 chunks run in (`NoEopm`: known uncompressed size, `allow_eopm = false`,
+    `eopm_is_valid = false`), started from well-formed dictionary positions and a state that is either stuck for good
+    (`pending = stuck`: the input ended inside a symbol, or LZMA_DATA_ERROR) or satisfies `RepsOk`: the same holds afterwards.
+    Inside the call every iteration of the main loop (`symStep`: end-of-chunk test, one symbol, its output step — complete or
+    stopped at the dictionary limit) keeps `RepsOk` and `PosInv` on every way out after which decoding can continue
+    (normal return, output full, end of chunk), never changes the configuration, and never switches `eopm_is_valid` on. So
+    every `dict_get(rep0)` / `dict_repeat(rep0, …)` of the call happens with `rep0 < dict.full` under `PosInv`
+    (`reps_invariant`), i.e. in bounds (`dict_indices_in_bounds`). The end-of-payload marker (which would leave
+    `rep0 = UINT32_MAX` behind) cannot be accepted: `decodeSymbol false` never exits with LZMA_STREAM_END. -/
+theorem reps_invariant_call :
+    (∀ (s : St), PosInv s.dp → NoEopm s → RepsOrStuck s →
+        PosInv (lzmaCall s).2.dp ∧ NoEopm (lzmaCall s).2 ∧ RepsOrStuck (lzmaCall s).2)
+    ∧ (∀ (mf : Bool) (s : St), RepsOk s → PosInv s.dp → s.allowEopm = false →
+        RunInv s (symStep false mf s) ∧ ∀ a s', symStep false mf s = .ok a s' → a = false)
+    ∧ (∀ (s : St) (e : Exit) (s' : St), decodeSymbol false s = .error e s' → e = .needInput ∨ e = .dataError) := by
+  refine ⟨lzmaCall_inv, symStep_inv, fun s e s' h => ?_⟩
+  rcases (sate_decodeSymbol false s).2 e s' h with h1 | h1 | ⟨_, h1⟩
+  · exact Or.inl h1
+  · exact Or.inr h1
+  · cases h1
+
+/-- THE REP-REGISTER INVARIANT ALONG A WHOLE LZMA2 STREAM, for every dictionary size, preset dictionary, input, and every
+    slicing of the output space into calls of `code`. Between any two calls the sequence-aware invariant `L2R` holds (what is
+    owed depends on `sequence`: a dictionary reset empties the dictionary while the old `state`/`rep` values are still in
+    place; then `need_properties` is set or `next_sequence = SEQ_PROPERTIES`, so `lzma_decoder_reset` runs before the next
+    symbol — this is where the control-byte rules of `lzma2_control_exact` are used), the dictionary positions are well
+    formed (`PosW`; `PosInv` after the limit computation at the top of `decode_buffer`), and no dictionary reset is pending.
+    In particular: whenever the coder is in SEQ_LZMA, the chunk configuration excludes the end-of-payload marker, and unless the
+    LZMA decoder is stuck for good (no symbol will ever be decoded again) `RepsOk` holds.
+    With `reps_invariant_call` (inside a call), `reps_invariant` (per symbol) and `dict_indices_in_bounds` this gives: every
+    dictionary access of the model LZMA2 decoder, on ANY input, is in bounds. -/
+theorem reps_invariant_lzma2 (dictSize : Nat) (preset : List UInt8) (input : ByteArray) (calls : List Nat) :
     let c := calls.foldl (fun (c : Coder) cap => (c.code cap).2) (Coder.initLzma2 dictSize preset input)
-    c.s.l2.seq = .lzma → c.s.pending ≠ .stuck → RepsOk c.s
+    (c.s.l2.seq = .lzma → c.s.pending ≠ .stuck → RepsOk c.s)
+    ∧ (c.s.l2.seq = .lzma → NoEopm c.s)
+    ∧ L2R c.s ∧ PosW c.s.dp ∧ c.s.dp.needReset = false := by
+  intro c
+  have h := reps_lzma2_stream dictSize preset input calls
+  exact ⟨fun hs hn => (h.2 hs).2 hn, fun hs => (h.2 hs).1, h.1.l2r, h.1.pos, h.1.noReset⟩
+
+/-- the dictionary positions between calls (`PosW`) become `PosInv` by the wrap + limit computation at the top of
+    `decode_buffer`, whatever the output allowance; `lz_decoder_reset` keeps `PosW` -/
+theorem dict_inv_between_calls (p : DictPos) (h : PosW p) :
+    (∀ outAvail, PosInv ((p.wrap).setLimit outAvail)) ∧ PosW p.reset :=
+  ⟨fun n => posInv_of_posW h n, posW_reset h⟩
+
+/-- non-vacuity: the invariant of a fresh coder, and of a state in SEQ_LZMA -/
+example : L2R (Coder.initLzma2 4096 [] (ByteArray.mk #[])).s ∧ PosW (Coder.initLzma2 4096 [] (ByteArray.mk #[])).s.dp :=
+  ⟨(Coder.repsInv_init 4096 [] _).2.l2r, (Coder.repsInv_init 4096 [] _).2.pos⟩
 
 /-- Initialisation is total and rejects exactly the documented cases: PROG_ERROR for lc/lp/pb outside `is_lclppb_valid`,
     OPTIONS_ERROR for LZMA1EXT flags other than LZMA_LZMA1EXT_ALLOW_EOPM; nothing else fails (allocation aside). -/
